@@ -18,15 +18,63 @@ LEVEL_NOTE_COMMON = (
     "shape bounds; every reported violation has been replayed on the real code with the real allocator.")
 
 CLAIMED = {
+    "C01": dict(
+        design_ref="DESIGN.md §4 C01",
+        text=("Bounded model checking of the real compiled <PartialDSym as FromStr>::from_str with the nom tokenizer "
+              "replaced by an arbitrary DSymSpec of a given list shape (over-approximation): for every number in "
+              "every list (unconstrained usize) the result is Err or a valid symbol that is the one the text "
+              "describes; never a panic. Shapes: size <= 2 x dim <= 2, lists <= 3 numbers, header boundary values "
+              "0 / 2^62 / 2^63 / usize::MAX (quick); size 3, dim 3 (thorough). PARTIAL: the tokenizer itself, Display "
+              "and therefore both round-trip sentences are NOT decided."),
+        note=("Decided: 'parsing ... either a valid symbol or an error, never panics' downstream of the tokenizer. "
+              "Not decided: print/parse round trips, nom grammar, shapes beyond the bound. Stub: parse_dsymbol -> "
+              "arbitrary DSymSpec (Kani only; the native replay goes through the real tokenizer).")),
+    "C02": dict(
+        design_ref="DESIGN.md §4 C02",
+        text=("Bounded model checking of op/r/v/m/walk/is_complete/is_loopless/orbit_reps_2d/collect_orbits/set and "
+              "the as_* conversions on PartialDSet, SimpleDSet, PartialDSym, SimpleDSym for EVERY valid D-set / "
+              "D-symbol of shape (2 chambers, dim 2) and (3, 1) (quick), up to 3-4 chambers and dim 3 (thorough), all "
+              "index pairs and chambers including out-of-range ones, against an orbit-length oracle. PARTIAL: "
+              "everything through Traversal (orbit, orbit_reps, traversal, partial_orientation, is_connected, "
+              "is_weakly_oriented, is_oriented) is NOT decided."),
+        note=("Representations are built directly from a symbolic array constrained by the validity predicate; one "
+              "harness proves new+set establish/preserve that predicate.")),
+    "C10": dict(
+        design_ref="DESIGN.md §4 C10",
+        text=("Bounded model checking of every FreeWord operation (new/from/empty, six product forms, *=, inverse, "
+              "raised_to, commutator, rotated, Ord, ==, relator_representative) against an array oracle for all "
+              "words over 2 generators (3 for the order) with operands of <= 2 letters (quick; rotation <= 5) / "
+              "<= 3 letters (thorough). relator_permutations (BTreeSet) is excluded."),
+        note=("Decided: reducedness, equality with the oracle free reduction, group laws, strict total order, relator "
+              "representative = least rotation/inverse rotation. Not decided: relator_permutations, longer words.")),
+    "C14": dict(
+        design_ref="DESIGN.md §4 C14",
+        text=("Bounded model checking of gcdx (|a|,|b| <= 12 / 40), diagonalize_in_place (determinantal divisors "
+              "preserved, diagonal non-negative; 1x2, 2x1, 2x2 quick; 2x2 entries <= 6, 2x3, 3x2 thorough), "
+              "relator_as_vector algebra and abelian_invariants end to end against the closed-form invariant "
+              "factors (min(relators, generators) <= 2; diagonal 3x3 thorough)."),
+        note=("Invariance under inverting/rotating/conjugating relators and adding products is decided on "
+              "relator_as_vector plus the row-lattice oracle. Not decided: general matrices with >= 3 rows and "
+              "columns, large entries (overflow).")),
     "C18": dict(
         design_ref="DESIGN.md §4 C18",
         text=("Model checking of the real compiled code within stated bounds: residue classes for ALL i64/i32 "
-              "inputs and all pairs of canonical representatives (P = 2, 7, 3037000493); Matrix/VecMatrix over "
-              "i64 and Z/7 for every shape up to 2x2 (quick) / 2x3, 3x2, 3x3 (thorough) with small symbolic "
-              "entries. Partial: BigRational back end, modular_solver::solve, PeriodicGraph::position and "
-              ">=4x4 echelon determinant are NOT decided."),
+              "inputs and all pairs of canonical representatives (P = 2, 7, 3037000493); Matrix and VecMatrix over "
+              "i64 and Z/7 for every shape up to 2x1 / 1x2 and 2x2 rank (quick), all of 2x2, 1x3, 3x1, 2x3, 3x2, "
+              "3x3 determinant (thorough) with small symbolic entries. PARTIAL: BigRational / f64 back ends, "
+              "modular_solver::solve, PeriodicGraph::position and the >= 4x4 echelon determinant are NOT decided."),
         note=("Decided clauses: canonical residues + field laws; rank/determinant/null space/solve/inverse exact "
               "and panic-free per shape. Not decided: BigRational, p-adic solver, pgraphs client, entries up to 1e9.")),
+    "C20": dict(
+        design_ref="DESIGN.md §4 C20",
+        text=("Bounded model checking of ONE INDUCTIVE STEP of IntPartition from an arbitrary state satisfying the "
+              "union-by-rank representation invariant: find / unite / clone(+union on either side) with symbolic "
+              "arguments keep a forest and change the induced partition exactly as specified, representatives are "
+              "stable; new() and lazy growth establish the invariant. 3 elements (+1 grown) quick, 4 thorough; "
+              "histories of any length follow by induction. PARTIAL: the generic Partition<T> (HashMap index) and "
+              "classes() are NOT decided."),
+        note=("The invariant is an over-approximation of the reachable states; failure to preserve its rank clause "
+              "alone is reported as inconclusive (labels C20.INV.*), semantic clauses as violations.")),
 }
 
 NOT_APPLICABLE = {
@@ -46,13 +94,7 @@ NOT_APPLICABLE = {
     "C19": "BTreeSet/BTreeMap throughout min_edge_cut/augment; two symbolic BTreeSet inserts exhaust 20 GB",
 }
 
-PENDING = {  # claimed in DESIGN.md, harness not yet registered in this commit
-    "C01": "harness under construction in this commit (DESIGN.md §4 C01); not claimed until its check runs",
-    "C02": "harness under construction in this commit (DESIGN.md §4 C02); not claimed until its check runs",
-    "C10": "harness under construction in this commit (DESIGN.md §4 C10); not claimed until its check runs",
-    "C14": "harness under construction in this commit (DESIGN.md §4 C14); not claimed until its check runs",
-    "C20": "harness under construction in this commit (DESIGN.md §4 C20); not claimed until its check runs",
-}
+PENDING = {}
 
 
 def main():
